@@ -47,6 +47,9 @@ PROPS = {
         'engines': [seq(['load'], 300, 10000, lambda f: f['nested'] == 1 and f['class'] in ('result', 'events', 'entry', 'C10', 'C11')),
                     # real goroutines: load 1, invalidation, load 2, load 1 returns late - its result must not be installed
                     {'kind': 'unit', 'name': 'concflight', 'hcmd': 'conc-flight', 'dcmd': 'concflight', 'quick': 64, 'thorough': 3000, 'chunk': 8, 'args': [],
+                     'accept': lambda f: 'C09' in f['msg']},
+                    # directed windows: a write landing between a Get's miss and the registration of its load, a Compute holding the bucket when the loader returns
+                    {'kind': 'unit', 'name': 'concwindow', 'hcmd': 'conc-window', 'dcmd': 'concwindow', 'quick': 40, 'thorough': 2000, 'chunk': 10, 'args': [],
                      'accept': lambda f: 'C09' in f['msg']}],
     },
     'C10': {
@@ -144,7 +147,7 @@ PROPS['C16'] = {
 
 POLICY_ENGINES = [unit('policy', 60, 3000, chunk=5),
                   {'kind': 'unit', 'name': 'policy', 'hcmd': 'unit-policy', 'dcmd': 'policy', 'quick': 60, 'thorough': 3000, 'chunk': 5, 'args': ['-ooo']},
-                  {'kind': 'unit', 'name': 'concpolicy', 'hcmd': 'conc-policy', 'dcmd': 'concpolicy', 'quick': 48, 'thorough': 3000, 'chunk': 4, 'args': []}]
+                  {'kind': 'unit', 'name': 'concpolicy', 'hcmd': 'conc-policy', 'dcmd': 'concpolicy', 'quick': 84, 'thorough': 3000, 'chunk': 7, 'args': []}]
 POLICY_RULE = ('UNIT-policy: add/update/delete/access/setMaximum/evictNodes/climb sequences on the real policy (weighted and unweighted, zero/oversized weights, SetMaximum incl. 0), in write order and with '
                'out-of-order events (add of a replaced node, update whose old node is unknown, delete before add); the model must reproduce the three deques, six counters and evicted nodes after every call; '
                'audit after every call: linked = mapped, no dead node linked, counters = weight sums, bound after evictNodes. CONC-policy: 2-8 goroutines rewriting/invalidating/reading 2-9 keys of a small cache, '
@@ -209,6 +212,8 @@ PROPS['C08'] = {
     'modules': ['OtterVerif.Props.C08'],
     'engines': [conc('concflight', 'conc-flight', 96, 4000, 8),
                 {'kind': 'unit', 'name': 'concrefresh', 'hcmd': 'conc-refresh', 'dcmd': 'concrefresh', 'quick': 40, 'thorough': 2000, 'chunk': 10, 'args': [],
+                 'accept': lambda f: 'C08' in f['msg']},
+                {'kind': 'unit', 'name': 'concwindow', 'hcmd': 'conc-window', 'dcmd': 'concwindow', 'quick': 40, 'thorough': 2000, 'chunk': 10, 'args': [],
                  'accept': lambda f: 'C08' in f['msg']},
                 seq(['load'], 200, 8000, lambda f: f['class'] in ('C08', 'C10') or f['op'] in ('hang', 'call', 'ret', 'end'))],
     'rule': 'CONC-flight: rounds of 2-9 concurrent Get/BulkGet callers over 1-3 absent keys behind loaders blocked on a gate, outcomes value/error/not-found/panic: loader executions per key never overlap, one execution per successful round, '
